@@ -27,11 +27,14 @@ enum Kind {
 const PRELUDE: &str = "TYPE Rec\nCode AS STRING * 4\nN AS INTEGER\nEND TYPE\nDECLARE FUNCTION FI% (K%)\nDECLARE FUNCTION FS$ (S$)\nDECLARE SUB PI (K%)\nDECLARE SUB PS (S$)\nDECLARE SUB PI2 (A%, K%)\nDIM FX AS STRING * 4\nDIM R AS Rec\nDIM AI%(3)\nDIM AS$(3)\nDIM AF(3) AS STRING * 4\nDIM AR(3) AS Rec\nI% = 1\nL& = 2\nS! = 1.5\nD# = 2.5\nT$ = \"ab\"\nFX = \"wxyz\"\nR.Code = \"abcd\"\nR.N = 3\nAI%(1) = 1\nAS$(1) = \"x\"\nAF(1) = \"q\"\n";
 const EPILOGUE: &str = "PRINT \"done\"\nEND\nFUNCTION FI% (K%)\nFI% = K% + 1\nEND FUNCTION\nFUNCTION FS$ (S$)\nFS$ = S$ + \"!\"\nEND FUNCTION\nSUB PI (K%)\nPRINT K%\nEND SUB\nSUB PS (S$)\nPRINT S$\nEND SUB\nSUB PI2 (A%, K%)\nPRINT A%; K%\nEND SUB\n";
 
-const OPERANDS: [(&str, Kind); 18] = [
+const OPERANDS: [(&str, Kind); 20] = [
     ("1", Kind::Num),
     ("\"s\"", Kind::Str),
     ("I%", Kind::Num),
     ("R", Kind::Bad),
+    // functions that are not defined evaluate to 0 / an empty string
+    ("NOF(1)", Kind::Num),
+    ("NOF$(1)", Kind::Str),
     ("T$", Kind::Str),
     ("FX", Kind::Str),
     ("R.Code", Kind::Str),
@@ -780,7 +783,7 @@ pub fn drive(tier: &str) -> i32 {
     run.crash_is_violation = true;
     let mut pool = Pool::new("C12");
     pool.timeout_ms = 120_000;
-    let nops = if quick { 10 } else { OPERANDS.len() };
+    let nops = if quick { 12 } else { OPERANDS.len() };
     let nexpr = Gen { nops }.exprs().len();
     let mut cases = vec![];
     let total = (nexpr * CONTEXTS.len()) as u64;
